@@ -29,7 +29,8 @@ from ..shims import Tracer
 from ..tlc import run_tlc, validate_traces
 
 LEVEL = "model_checking"
-TIMEOUT_S = 40
+TIMEOUT_S = 120         # CPU seconds of the loading process (the largest corpus file needs ~10): robust against a busy machine
+WALL_S = 1800           # wall-clock backstop for a load that blocks without using the CPU
 
 
 class LoadTimeout(BaseException):
@@ -66,7 +67,9 @@ def load_exec(task):
     namesfile, lineno = True, []
     valid_flags = []
     signal.signal(signal.SIGALRM, _alarm)
-    signal.alarm(TIMEOUT_S)
+    signal.signal(signal.SIGPROF, _alarm)
+    signal.setitimer(signal.ITIMER_PROF, TIMEOUT_S)
+    signal.alarm(WALL_S)
     try:
         with warnings.catch_warnings():
             warnings.simplefilter("ignore")
@@ -101,6 +104,7 @@ def load_exec(task):
     except LoadTimeout:
         out = "timeout"
     finally:
+        signal.setitimer(signal.ITIMER_PROF, 0)
         signal.alarm(0)
         shutil.rmtree(tmp, ignore_errors=True)
     events = list(tr.events)
@@ -211,6 +215,10 @@ def file_tasks(args):
                     if new != lines[i]:
                         variants.append((b"".join(lines[:i]) + new + b"".join(lines[i + 1:]), "mutation:blankfield"))
     variants += mutations(data, rng, nmut)
+    # an empty line where a record or a frame is expected: after the last line, before the first, doubled
+    variants.append((data + b"\n", "mutation:blank"))
+    variants.append((data + b"\n\n", "mutation:blank"))
+    variants.append((b"\n" + data, "mutation:blank"))
     variants.append((b"", "empty"))
     variants.append((bytes(rng.randrange(256) for _ in range(300)), "binary"))
     variants.append((b"\n" * 5, "blank-lines"))
@@ -414,7 +422,7 @@ def check(run: Run):
     run.assumptions += [
         "frame kinds of arbitrary content are inferred from the observed yields (the protocol order, outcome class, "
         "message, line-number, validity and descriptor clauses are what the specification binds)",
-        f"termination: wall-clock alarm of {TIMEOUT_S}s and a 6 GiB address-space limit per load",
+        f"termination: a budget of {TIMEOUT_S} CPU seconds (ITIMER_PROF) plus a {WALL_S}s wall-clock backstop and a 6 GiB address-space limit per load",
         "shape consistency is computed from the data model only (vf/corpus.py: consistent)",
     ]
 
